@@ -9,6 +9,7 @@ import (
 	"strings"
 
 	"golang.org/x/tools/go/ssa"
+	"golang.org/x/tools/go/ssa/ssautil"
 )
 
 // CalleeName is the fully qualified name of what a call invokes: "(*pkg.T).M" for methods,
@@ -29,6 +30,69 @@ func CalleeName(c *ssa.CallCommon) string {
 		}
 	}
 	return ""
+}
+
+// singleImplNewIfaces: interface types of the module that did not exist on the reviewed tree (a
+// refactoring put a dependency behind a small interface) and to which every conversion in the
+// module is from one and the same concrete type: the normaliser declares them as an alias of that
+// type again, so that the calls are static calls as on the reviewed tree.
+func singleImplNewIfaces(w *World) map[*types.TypeName]types.Type {
+	out := map[*types.TypeName]types.Type{}
+	cands := map[*types.Named]bool{}
+	for path, p := range w.Mod {
+		if p.Types == nil {
+			continue
+		}
+		for _, name := range p.Types.Scope().Names() {
+			tn, ok := p.Types.Scope().Lookup(name).(*types.TypeName)
+			if !ok || tn.IsAlias() || !w.NewTypes[path+"."+name] {
+				continue
+			}
+			n, ok := tn.Type().(*types.Named)
+			if !ok || n.TypeParams().Len() > 0 {
+				continue
+			}
+			if it, isI := n.Underlying().(*types.Interface); isI && it.NumMethods() > 0 {
+				cands[n] = true
+			}
+		}
+	}
+	if len(cands) == 0 {
+		return out
+	}
+	only := map[*types.Named]types.Type{}
+	bad := map[*types.Named]bool{}
+	for fn := range ssautil.AllFunctions(w.Prog) {
+		if fn.Blocks == nil || !inModule(fn) {
+			continue
+		}
+		eachInstr(fn, func(in ssa.Instruction) {
+			switch x := in.(type) {
+			case *ssa.MakeInterface:
+				if n, ok := x.Type().(*types.Named); ok && cands[n] {
+					if only[n] == nil {
+						only[n] = x.X.Type()
+					} else if !types.Identical(only[n], x.X.Type()) {
+						bad[n] = true
+					}
+				}
+			case *ssa.ChangeInterface:
+				if n, ok := x.Type().(*types.Named); ok && cands[n] {
+					bad[n] = true
+				}
+			case *ssa.TypeAssert:
+				if n, ok := x.AssertedType.(*types.Named); ok && cands[n] {
+					bad[n] = true
+				}
+			}
+		})
+	}
+	for n := range cands {
+		if !bad[n] && only[n] != nil {
+			out[n.Obj()] = only[n]
+		}
+	}
+	return out
 }
 
 func funcFullName(f *ssa.Function) string {
